@@ -154,6 +154,14 @@ def run(chk, S: Session):
         r2.require(want_i in forms, f"{name} iteration budget", "continue only while i < maxiter", f"conjuncts for i >= 1: {[T.show(c, 4) for c in cs]}", where)
         extra = [c for c, f in zip(cs, forms) if f not in (want_fx, want_i, want_dx)]
         r2.require(not extra, f"{name} no other stopping criterion", "conjuncts are exactly {constraint, budget, increment}", f"unexpected conjuncts {[T.show(c, 4) for c in extra]}", where)
+        # "... returns, within its iteration budget, a point that satisfies the constraint to the stated tolerance (or exhausts the budget and says so)": the loop
+        # may end only for one of these two reasons.  Every further conjunct of the continuation condition is a third exit -- infeasible, budget left.
+        third = [c for c, f in zip(cs, forms) if f not in (want_fx, want_i)]
+        kinds = ["|dx| <= tol*sqrt(n)" if pred_form(c) == want_dx else T.show(c, 3) for c in third]
+        r2.require(not third, f"{name} exits only feasible or out of budget" + (f" [further exit: {', '.join(kinds)}]" if third else ""),
+                   "for i >= 1 the loop continues while |fx| > tol*sqrt(n) and i < maxiter, and stops for no other reason",
+                   f"the loop also stops when {' or '.join(kinds)}: after a Gauss-Newton step the residual is of the order (scale x curvature x |dx|^2), so for a badly scaled constraint the "
+                   "increment falls below tol while the constraint is still violated by orders of magnitude, with budget left", where)
         # the first Gauss-Newton step is always taken (a feasible start is not necessarily optimal): at i == 0 only the budget may stop the loop
         first = simp(w["cond"], True)
         cs0 = conjuncts(first) if isinstance(first, T.Term) else []
